@@ -172,7 +172,7 @@ theorem mem_poolAddrs {c : Conf} {a : Nat} : a ∈ poolAddrs c ↔ c.start ≤ a
   · rintro ⟨h1, h2⟩
     exact ⟨a - c.start, by rw [List.mem_range]; omega, by omega⟩
 
-theorem obs_replyRecorded {O : Oracle} {c : Conf} {s : State} {op : Op} (h : Inv c s) (hw : op.wf) :
+theorem obs_replyRecorded {O : Oracle} {c : Conf} {s : State} {op : Op} (h : Inv c s) :
     replyRecorded (obsOf c (step O c s op).1) op (step O c s op).2 = true := by
   unfold replyRecorded
   cases hm : op.mac? with
@@ -182,7 +182,7 @@ theorem obs_replyRecorded {O : Oracle} {c : Conf} {s : State} {op : Op} (h : Inv
     by_cases hrc : (step O c s op).2.rc = 1
     · by_cases hyi : (step O c s op).2.yi = 0
       · simp [hyi]
-      · obtain ⟨l, hl, h1, h2⟩ := step_recorded h hw hm hrc hyi
+      · obtain ⟨l, hl, h1, h2⟩ := step_recorded h hm hrc hyi
         have : (obsOf c (step O c s op).1).leases.any (fun l => l.mac == m && l.ip == (step O c s op).2.yi) = true := by
           rw [List.any_eq_true]
           exact ⟨l.view, List.mem_map.2 ⟨l, hl, rfl⟩, by simp [Lease.view, h1, h2]⟩
@@ -190,9 +190,9 @@ theorem obs_replyRecorded {O : Oracle} {c : Conf} {s : State} {op : Op} (h : Inv
     · have : ((step O c s op).2.rc != 1) = true := by simpa using hrc
       rw [this]; rfl
 
-theorem obs_reservedOK {O : Oracle} {c : Conf} {s : State} {op : Op} (h : Inv c s) (hw : op.wf) :
+theorem obs_reservedOK {O : Oracle} {c : Conf} {s : State} {op : Op} (h : Inv c s) :
     reservedOK (obsOf c (step O c s op).1) op (step O c s op).2 = true := by
-  have hi' := Inv_step (O := O) h hw
+  have hi' := Inv_step (O := O) (op := op) h
   unfold reservedOK
   cases hm : op.mac? with
   | none => rfl
@@ -201,7 +201,7 @@ theorem obs_reservedOK {O : Oracle} {c : Conf} {s : State} {op : Op} (h : Inv c 
     by_cases hrc : (step O c s op).2.rc = 1
     · by_cases hyi : (step O c s op).2.yi = 0
       · simp [hyi]
-      · obtain ⟨l, hl, h1, h2⟩ := step_recorded h hw hm hrc hyi
+      · obtain ⟨l, hl, h1, h2⟩ := step_recorded h hm hrc hyi
         have : (obsOf c (step O c s op).1).leases.all
             (fun l => !(l.static && l.mac == m) || l.ip == (step O c s op).2.yi) = true := by
           rw [List.all_eq_true]
@@ -215,7 +215,7 @@ theorem obs_reservedOK {O : Oracle} {c : Conf} {s : State} {op : Op} (h : Inv c 
     · have : ((step O c s op).2.rc != 1) = true := by simpa using hrc
       rw [this]; rfl
 
-theorem obs_offerLive {O : Oracle} {c : Conf} {s : State} {op : Op} (hc : ConfOK c) (h : Inv c s) (hw : op.wf) :
+theorem obs_offerLive {O : Oracle} {c : Conf} {s : State} {op : Op} (hc : ConfOK c) (h : Inv c s) :
     offerLive c (obsOf c s) op (step O c s op).2 = true := by
   have h0 : Inv c { s with stale := [] } := Inv_congr h rfl rfl rfl rfl rfl rfl
   unfold offerLive
@@ -244,7 +244,7 @@ theorem obs_offerLive {O : Oracle} {c : Conf} {s : State} {op : Op} (hc : ConfOK
         simp only [Lease.view, hla, bne_self_eq_false, Bool.false_or, Bool.not_eq_true', held, obsOf,
           Bool.or_eq_false_iff, decide_eq_false_iff_not, Nat.not_le] at this
         exact this
-      obtain ⟨r1, r2, r3, _⟩ := handleDiscover_offer (c := c) h0 hw hnew hfree'
+      obtain ⟨r1, r2, r3, _⟩ := handleDiscover_offer (c := c) h0 hnew hfree'
       have hstep : (step O c s (.discover m)).2 = (handleDiscover c m { s with stale := [] }).2 := by
         unfold step
         simp only [hv, Bool.not_true, Bool.false_eq_true, if_false]
@@ -264,12 +264,12 @@ theorem obs_offerLive {O : Oracle} {c : Conf} {s : State} {op : Op} (hc : ConfOK
   | restart => rfl
 
 /-- The model meets every clause about addresses and clients, on its own observations. -/
-theorem specCore_step {O : Oracle} {c : Conf} {s : State} {op : Op} (hc : ConfOK c) (h : Inv c s) (hw : op.wf) :
+theorem specCore_step {O : Oracle} {c : Conf} {s : State} {op : Op} (hc : ConfOK c) (h : Inv c s) :
     specCore c (obsOf c s) op (step O c s op).2 (obsOf c (step O c s op).1) = true := by
-  have hi' := Inv_step (O := O) h hw
+  have hi' := Inv_step (O := O) (op := op) h
   unfold specCore specCoreWhy
-  rw [obs_noSharedIP hi', obs_oneLease hi', obs_dynInPool hc hi', obs_dynNotReserved hi', obs_reservedOK h hw,
-    obs_replyRecorded h hw, obs_offerLive hc h hw, obs_bitsAgree hi', obs_ipIndexAgree hi']
+  rw [obs_noSharedIP hi', obs_oneLease hi', obs_dynInPool hc hi', obs_dynNotReserved hi', obs_reservedOK h,
+    obs_replyRecorded h, obs_offerLive hc h, obs_bitsAgree hi', obs_ipIndexAgree hi']
   rfl
 
 /-! ### the file and the hostname index, as observed -/
